@@ -204,6 +204,12 @@ func Main() int {
 		return 5
 	}
 	runtime.GOMAXPROCS(runtime.NumCPU())
+	if err := installClassifier(prop); err != nil {
+		col.Res.Internal = err.Error()
+		col.Res.Write(out)
+		fmt.Fprintln(os.Stderr, "INTERNAL:", err)
+		return 5
+	}
 	if rp := os.Getenv("VERIF_REPLAY"); rp != "" {
 		return replay(ctx, p, rp)
 	}
@@ -214,7 +220,6 @@ func Main() int {
 		col.Res.Targets = nil
 	}
 	res := col.Finish()
-	markKnown(res)
 	if err := res.Write(out); err != nil {
 		fmt.Fprintln(os.Stderr, "write result:", err)
 		return 5
